@@ -42,6 +42,21 @@ class BuilderModel(BaseModel):
         return BaseModel.call(self, ex, path, bb, t, args)
 
 
+ID_FIELDS = ("state", "target_state", "start_state", "end_state")
+
+
+def strip_ids(t):
+    """State ids are transparent wrappers around a number: StateID(x) -> x and <place of an id>.0 -> the place, so that
+    `StateID::new(s.id() + d)`, `s + d` and `s += d` (the macro-generated arithmetic, analysed in place) read the same."""
+    if not isinstance(t, tuple) or not t:
+        return t
+    if t[0] == "adt" and isinstance(t[1], str) and t[1].startswith("internal::ids::") and len(t) > 3 and len(t[3]) == 1:
+        return strip_ids(t[3][0])
+    if t[0] == "field" and t[2] == "0" and t[1][0] == "field" and t[1][2] in ID_FIELDS:
+        return strip_ids(t[1])
+    return tuple(strip_ids(x) if isinstance(x, tuple) else x for x in t)
+
+
 def canon_state(v):
     s = S.vstr(v)
     if s == "self.start_state":
@@ -210,8 +225,8 @@ def analyze(ctx, want):
     for p in paths:
         for e in p.events:
             if e[0] == "write" and e[2][0] != "local":
-                v = e[4]
-                fp = field_path(e[3])
+                v = strip_ids(e[4])
+                fp = re.sub(r"\.0$", "", field_path(e[3]))
                 # new value = StateID::new(old id + offset)
                 lin, c = S.linear(v)
                 adds.add((fp.split(".")[-1], any(S.vstr(a_) == "(offset as u32)" or "offset" in S.vstr(a_) for a_ in lin) and len(lin) == 2 and c == 0))
@@ -220,7 +235,7 @@ def analyze(ctx, want):
     ctx.analysed_fn(sh)
     ex, paths = run_fn(sh, F, BaseModel())
     for p in ret_paths(paths):
-        ws = {field_path(w_[1]): w_[2] for w_ in heap_writes(p) if w_[0] == ("sym", "self")}
+        ws = {re.sub(r"\.0$", "", field_path(w_[1])): strip_ids(w_[2]) for w_ in heap_writes(p) if w_[0] == ("sym", "self")}
         ok = "start_state" in ws and "end_state" in ws
         if ok:
             for f_ in ("start_state", "end_state"):
@@ -228,12 +243,16 @@ def analyze(ctx, want):
                 ok = ok and len(lin) == 2 and c == 0 and any("offset" in S.vstr(a_) for a_ in lin) and any(S.vstr(a_) == "self." + f_ for a_ in lin)
         ob("C02.b", "shift_ids-shifts-start-and-end", ok, "start/end := %s" % {k: S.vstr(v) for k, v in ws.items()}, sh.loc())
         r = p.end[1]
-        ok_r = r[0] == "tuple" and len(r[1]) == 2 and r[1][0] == ws.get("start_state") and r[1][1] == ws.get("end_state")
+        rn = strip_ids(r)
+        # the shifted values, or the two fields read back after they were shifted in place
+        ok_r = rn[0] == "tuple" and len(rn[1]) == 2 and ((rn[1][0] == ws.get("start_state") and rn[1][1] == ws.get("end_state"))
+                                                          or (S.fstr(rn) == "(self.start_state, self.end_state)" and "start_state" in ws and "end_state" in ws))
         ob("C02.b", "shift_ids-returns-shifted-start-and-end", ok_r, "returns %s" % S.vstr(r), sh.loc())
     # every state is shifted: the loop ranges over all states
     calls = [M.call_name(t) for bb, t in sh.calls()]
     adapters = [c for c in calls if re.search(r"Iterator>::(skip|take|filter|step_by|rev|skip_while|take_while)", c)]
-    ob("C02.b", "shift_ids-visits-every-state", any(re.search(r"iter_mut$", c) for c in calls) and not adapters and any(re.search(r"NfaState::offset$", c) for c in calls),
+    calls_all = calls + [M.call_name(t) for c_ in F.closures_of(sh) for bb, t in c_.calls()]
+    ob("C02.b", "shift_ids-visits-every-state", any(re.search(r"iter_mut$", c) for c in calls) and not adapters and any(re.search(r"NfaState::offset$", c) for c in calls_all),
        "calls in shift_ids: %s" % [M.short_name(c) for c in calls], sh.loc())
     ap = F.fn(r"internal::nfa::Nfa::append$")
     ex, paths = run_fn(ap, F, BaseModel())
